@@ -1549,3 +1549,103 @@ def memo_addr(prog):
             obs.append(Ob('MEMO-ADDR', fn.file, fn.line, fn.q, 'memo-after-emit', DISCHARGED, '',
                           '%d memo accesses, none reachable from any of the %d emission sites' % (len(memos), len(emits)), len(emits) > 0))
     return RuleResult('MEMO-ADDR', obs, 10, {})
+
+
+def memo_thresh(prog):
+    """MEMO-THRESH: when pass 1 decides a form with `if (unknown || v > T) { memory_write(memo); X.type = LONG; }` and pass 2
+    repeats the decision as `if (memory_read(memo) != 0 || unknown || v > T') X.type = LONG;`, a value that is known in both
+    passes (memo 0) takes the same arm only if the relational tests are the same: the sets of (expression, operator,
+    constant) atoms of the two conditions must be equal.  (68000 `(expr)` without size suffix: a pass-2 threshold of 0x7fff
+    against 0xffff in pass 1 makes the instruction 2 bytes longer in pass 2.)"""
+    def atoms(c):
+        c = strip(c)
+        if c['k'] == 'BinaryOperator' and c.get('op') in ('||', '&&'):
+            return atoms(kids(c)[0]) + atoms(kids(c)[1])
+        return [c]
+
+    def has_call(n, names):
+        return any(x['k'] in ('CallExpr', 'CXXMemberCallExpr') and callee(x) in names for x in walk(n))
+    MR = ('AsmContext::memory_read', 'AsmContext::memory_read_m')
+    MW = ('AsmContext::memory_write', 'AsmContext::memory_write_inc')
+    obs = []
+    for fn in sorted(prog.fns.values(), key=lambda f: (f.file, f.line)):
+        if not fn.blocks or not fn.file.startswith('asm/'):
+            continue
+        p1, p2 = {}, {}
+        for n in fn.nodes.values():
+            if n['k'] != 'IfStmt':
+                continue
+            ks = [x for x in kids(n) if x is not None]
+            if len(ks) < 2:
+                continue
+            cond, then = ks[0], ks[1]
+            rel = sorted((show(strip(kids(a)[0], casts=True)), a['op'], const(kids(a)[1])) for a in atoms(cond)
+                         if a['k'] == 'BinaryOperator' and a.get('op') in ('<', '>', '<=', '>=') and const(kids(a)[1]) is not None)
+            if not rel:
+                continue
+            asg = sorted({(show(kids(x)[0]), show(kids(x)[1])) for x in walk(then)
+                          if x['k'] == 'BinaryOperator' and x.get('op') == '=' and strip(kids(x)[1], casts=True).get('dk') == 'enum'})
+            if not asg:
+                continue
+            key = tuple(asg)
+            if has_call(cond, MR):
+                p2.setdefault(key, []).append((n, rel))
+            elif has_call(then, MW):
+                p1.setdefault(key, []).append((n, rel))
+        for key in sorted(set(p1) & set(p2)):
+            for n1, r1 in p1[key]:
+                for n2, r2 in p2[key]:
+                    ok = r1 == r2
+                    obs.append(Ob('MEMO-THRESH', fn.file, n2['l'], fn.q, '%s=%s' % key[0], DISCHARGED if ok else VIOLATED,
+                                  '' if ok else 'pass 1 (line %d) selects %s when %s, pass 2 (line %d) when %s: an operand whose value is '
+                                  'known in both passes and lies between the two bounds gets the short form in one pass and the long form '
+                                  'in the other, and every later label moves' % (
+                                      n1['l'], key[0][1], ' or '.join('%s %s %#x' % a for a in r1), n2['l'],
+                                      ' or '.join('%s %s %#x' % a for a in r2)),
+                                  'same relational tests in both passes: %s' % ' or '.join('%s %s %#x' % a for a in r1), False))
+    if not obs:
+        raise AnalysisBroken('MEMO-THRESH: no pass-1/pass-2 decision pair found in asm/')
+    return RuleResult('MEMO-THRESH', obs, 1, {})
+
+
+def varlen_emit(prog):
+    """VARLEN-EMIT: a variable-length emitter (add_bin_varint / add_bin_varuint with fixed_size 0: one byte per 7 bits of
+    the value) is not fed a value that may come from a symbol unless the instruction's pass-1 choice is remembered: pass 1
+    sees 0 for a forward reference and emits one byte, pass 2 emits as many as the real value needs, and every later
+    label is bound too low."""
+    files = {f.file for f in prog.fns.values() if f.file.startswith('asm/')}
+    summ = summaries(prog, files)
+    obs = []
+    for fn in sorted(prog.fns.values(), key=lambda f: (f.file, f.line)):
+        if not fn.blocks or not fn.file.startswith('asm/'):
+            continue
+        calls = [c for c in fn.calls() if callee(c) in ('add_bin_varint', 'add_bin_varuint')]
+        if not calls:
+            continue
+        fi = FnInfo(prog, fn, summ)
+        fi.solve()
+        ft = FlowTaint(fn, fi)
+        has_memo = any(callee(c) in MEMO_READ for c in fn.calls())
+        k = 0
+        for c in sorted(calls, key=lambda x: x['i']):
+            args = call_args(c)
+            if len(args) < 3:
+                continue
+            k += 1
+            w = fn.where.get(c['i'])
+            st = set(ft.inn[w[0]])
+            for e in fn.blocks[w[0]]['e'][:w[1]]:
+                x = fn.nodes.get(e)
+                if x is not None:
+                    ft.transfer(x, st)
+            tainted = bool(value_keys(fn, args[1]) & st)
+            fixed = const(args[2])
+            ok = not tainted or (fixed is not None and fixed > 0) or has_memo
+            obs.append(Ob('VARLEN-EMIT', fn.file, c['l'], fn.q, '%s#%d' % (callee(c), k), DISCHARGED if ok else VIOLATED,
+                          '' if ok else '`%s` emits one byte per 7 bits of `%s`, which may come from a symbol that pass 1 does not know yet '
+                          '(it is taken as 0 then: one byte), and nothing records the pass-1 length: the instruction grows in pass 2 '
+                          'and every later label is bound too low' % (show(c)[:60], show(args[1])[:30]),
+                          'value not symbol-derived, fixed size, or memo consulted', False))
+    if not obs:
+        raise AnalysisBroken('VARLEN-EMIT: no variable-length emission found in asm/')
+    return RuleResult('VARLEN-EMIT', obs, 2, {})
